@@ -122,6 +122,8 @@ NOTES = ('All checks share one engine: tools/check.py <id>. Replays: tools/check
 
 # third leg of the tie (DESIGN 15.9): whole functions re-translated from the Rust source on every run (tools/rsparse.py + tools/rs2lean.py)
 _SRC = {
+ 'C01': 'Third leg: tools/rs2lean_parser.py re-translates the WHOLE parser (src/compiler.rs, impl Compiler: compile_ast, compile, expression, parse_precedence with its while loop, do_prefix, do_infix, expression_list with its loop, call, array, binary, unary, grouping, advance, current, previous, chomp) from the current source text into a state-monad program over the cursor (Generated/SrcParser.lean) on every run; C01Parser.lean proves by simulation (cursor into the token vector <-> remaining tokens) that the hand-written Pratt model equals it (parsePrec_is_source, doPrefix_is_source, infixLoop_is_source, doInfix_is_source, exprList_is_source; parse_is_source: Compiler::compile_ast = Parser.parse), so parse_rendering and the other parser theorems are re-checked against what compiler.rs says now.',
+ 'C07': 'Third leg for the parser: src/compiler.rs is re-translated into Lean on every run (tools/rs2lean_parser.py, usize subtraction below zero = panic outcome, every recursive call and loop iteration spends fuel) and C01Parser.lean proves compile_ast_total: the translated Compiler::compile_ast never reaches the usize underflow / PreviousTokenNotFound of previous() and returns within 3n+1 levels of recursion on n tokens, for every token vector; parse_is_source ties the totality theorems of the model to it.',
  'C03': 'Third leg: tools/rs2lean.py re-translates the WHOLE interpreter (interpreter.rs: expression/unary/binary/boolean/ternary/get_values/array/variable/call, and lib.rs execute) and the ordering half of value.rs (Ord::cmp, PartialEq::eq, is_empty, as_bool) from the current source text into Lean on every run; C04Source.lean (interp_is_source, execute_is_source) and C13Source.lean (cmp_is_source, eq_is_source) prove the hand-written model equal to the generated functions, so execute_eq_spec is re-checked against what the source says now.',
  'C04': 'Third leg: the interpreter is re-translated from interpreter.rs into a writer monad whose log is the sequence of Environment::variable / Environment::call invocations (Rust evaluation order = order of the binds); C04Source.lean proves result AND trace of the model equal to the generated function for every tree and every initial log (interp_is_source, trace_is_source).',
  'C05': 'Third leg: optimizer.rs (transform_ternary, fold_constants, optimize, expressions_are_const; functional translation of the &mut borrows, loop as fuel recursion) is re-translated from the source on every run and C05Source.lean proves transform / fold (tree, flag, error: also the partially rewritten tree) / optimize of the model equal to it.',
